@@ -163,3 +163,22 @@ Definition lsub_names (subs : list str) (reference pattern : str) : list str * l
    let ms := filter_mailboxes subs reference pattern in
    if existsb (fun m => str_eqb (to_upper m) INBOX) subs then ms
    else filter (fun m => negb (str_eqb m INBOX)) ms).
+
+(** ---- role mailboxes in LIST / LSUB ----
+    For a user with assigned role mailboxes both handlers build the paths
+    Roles/<address>/<mailbox> of every mailbox of every assigned role store,
+    Roles/<address> for every role and the top-level name Roles, pass them
+    through FilterMailboxes with the SAME reference and pattern, and answer
+    those that start with "Roles"; names with at most one delimiter are
+    answered \Noselect \HasChildren. *)
+Definition ROLES : str := S_ "Roles".
+
+Definition role_paths (roles : list (str * list str)) : list str :=
+  flat_map (fun eb => map (fun b => ROLES ++ [delim] ++ fst eb ++ [delim] ++ b) (snd eb)
+                      ++ [ROLES ++ [delim] ++ fst eb]) roles ++ [ROLES].
+
+Definition role_names (roles : list (str * list str)) (reference pattern : str) : list str :=
+  filter (fun m => has_prefix m ROLES) (filter_mailboxes (role_paths roles) reference pattern).
+
+Definition count_delim (s : str) : nat := length (filter (Ascii.eqb delim) s).
+Definition role_noselect (n : str) : bool := Nat.leb (count_delim n) 1.
